@@ -49,6 +49,21 @@ class CallGraph:
             for q in index.mod("core").funcs
             if q.startswith("Wtp.") and q.count(".") == 1
         }
+        # methods of the other classes of the package (WikiNode, TemplateNode, ...): `self.m()` inside the
+        # class, and `x.m()` on any receiver when the method name is defined by exactly one package class
+        # and is not a name that builtin containers/strings also have
+        self.class_methods: dict = {}
+        by_name: dict = {}
+        for mn, m in index.modules.items():
+            for cl in [n for n in m.tree.body if isinstance(n, ast.ClassDef)]:
+                for st in cl.body:
+                    if isinstance(st, (ast.FunctionDef, ast.AsyncFunctionDef)):
+                        d = "{}.{}.{}".format(mn, cl.name, st.name)
+                        self.class_methods[(mn, cl.name, st.name)] = d
+                        if not (mn == "core" and cl.name == "Wtp"):
+                            by_name.setdefault(st.name, []).append(d)
+        builtin_like = set(dir(str)) | set(dir(list)) | set(dir(dict)) | set(dir(set)) | {"group", "groups", "start", "end", "span"}
+        self.unique_methods = {n: ds[0] for n, ds in by_name.items() if len(ds) == 1 and n not in builtin_like and n not in self.wtp_methods}
         self._imports: dict = {}
         for mn, m in index.modules.items():
             imp = {}
@@ -118,6 +133,14 @@ class CallGraph:
                               "namespace_prefixes", "backup_db", "analyze_templates", "has_analyzed_templates"):
                     self.edges[dotted].add(self.wtp_methods[f.attr])
                     return
+            # self.m() inside a class of the package
+            parts = qual.split(".")
+            if isinstance(f.value, ast.Name) and f.value.id == "self" and len(parts) >= 2 and (mn, parts[0], f.attr) in self.class_methods:
+                self.edges[dotted].add(self.class_methods[(mn, parts[0], f.attr)])
+                return
+            if f.attr in self.unique_methods:
+                self.edges[dotted].add(self.unique_methods[f.attr])
+                return
             self.external[dotted].add(ast.unparse(f))
         # functions passed as arguments (callbacks): count as potential calls
         for a in list(c.args) + [k.value for k in c.keywords]:
